@@ -842,11 +842,11 @@ def classify_known(stage_name, case, viol):
 def stages(ctx):
     return [
         Stage('alloc', run_alloc, alloc_strategy(),
-              quick=3000, thorough=20000),
+              quick=3000, thorough=12000),
         Stage('alloc_enum', run_alloc_all_ties, cases=enum_cases,
               exhaustive=True),
         Stage('public', run_public, public_strategy(),
-              quick=1500, thorough=10000),
+              quick=1500, thorough=6000),
         Stage('nodeid', run_nodeid, nodeid_strategy(),
-              quick=300, thorough=3000),
+              quick=300, thorough=2000),
     ]
